@@ -28,7 +28,7 @@ func (w *World) LemmaObligations(id string) (obs []*Obligation, err error) {
 			ty := w.resolveType(p.Type, ctx)
 			n := "l!" + sanitize(p.Name)
 			vc.declare(n, ty.Sort(w.S))
-			vars[p.Name] = binding{n, ty}
+			vars[p.Name] = binding{term: n, typ: ty}
 		}
 		env := &Env{w: w, vc: vc, cur: heap, old: heap, vars: vars, ctx: ctx}
 		vc.assume(root, "(>= next@0 1)")
@@ -82,7 +82,7 @@ func (w *World) LemmaObligations(id string) (obs []*Obligation, err error) {
 			ty := w.resolveType(p.Type, fctx)
 			c := "l!" + sanitize(p.Name)
 			vc.declare(c, ty.Sort(w.S))
-			vars[p.Name] = binding{c, ty}
+			vars[p.Name] = binding{term: c, typ: ty}
 		}
 		h1 := &HeapState{vers: map[string]string{}, next: "n!1"}
 		h2 := &HeapState{vers: map[string]string{}, next: "n!2"}
